@@ -191,6 +191,16 @@ pub fn tolerate_known(key: &str) -> bool {
     false
 }
 
+/// For the coverage-guided targets (no `run_check` there): loads the known findings of `property`.
+pub fn fuzz_init_known(property: &str) {
+    let findings = load_findings(&verif_root(), property);
+    let _ = KNOWN_KEYS.set(findings.iter().filter(|f| f.status == "known" && !f.key.is_empty()).map(|f| f.key.clone()).collect());
+}
+
+pub fn fuzz_is_known(key: &str) -> bool {
+    KNOWN_KEYS.get().map_or(false, |keys| keys.iter().any(|k| key.starts_with(k.as_str())))
+}
+
 fn known_match<'a>(findings: &'a [Finding], key: &str) -> Option<&'a Finding> {
     findings.iter().find(|f| f.status == "known" && !f.key.is_empty() && key.starts_with(&f.key))
 }
@@ -914,9 +924,14 @@ pub struct FuzzOutcome {
 /// Builds (cargo +nightly fuzz build -s none) and runs one target of harness/fuzz for a fixed number
 /// of executions from a fresh corpus directory seeded with `seeds`.
 pub fn run_fuzz(target: &str, runs: u64, seed: u64, max_len: usize, seeds: &[Vec<u8>]) -> FuzzOutcome {
+    run_fuzz_env(target, target, runs, seed, max_len, seeds, &[])
+}
+
+/// As `run_fuzz`, with extra environment variables for the target and a name of its own for the work directory.
+pub fn run_fuzz_env(target: &str, work_name: &str, runs: u64, seed: u64, max_len: usize, seeds: &[Vec<u8>], env: &[(&str, &str)]) -> FuzzOutcome {
     let root = verif_root();
     let fuzz_dir = root.join("harness").join("fuzz");
-    let work = root.join("out").join("fuzz").join(format!("{}-{}", target, seed));
+    let work = root.join("out").join("fuzz").join(format!("{}-{}", work_name, seed));
     let _ = std::fs::remove_dir_all(&work);
     let corpus = work.join("corpus");
     let artifacts = work.join("artifacts");
@@ -949,6 +964,8 @@ pub fn run_fuzz(target: &str, runs: u64, seed: u64, max_len: usize, seeds: &[Vec
         .arg(format!("-artifact_prefix={}/", artifacts.display()))
         .current_dir(&fuzz_dir)
         .env("CARGO_NET_OFFLINE", "true")
+        .env("VERIF_ROOT", &root)
+        .envs(env.iter().map(|(k, v)| (k.to_string(), v.to_string())))
         .output();
     match out {
         Ok(o) => {
